@@ -22,7 +22,12 @@ EXTENDS Integers, Sequences, FiniteSets, TLC, Json, SequencesExt
 CONSTANTS CasesFile, TraceFile, VerdictFile
 
 Dests == {"Int", "Int64", "Int32", "Float64", "Float32"}
-Reps  == {"int", "int32", "int64", "float32", "float64", "decstr", "expstr", "jsonnum"}
+Reps  == {"int", "int32", "int64", "float32", "float64", "decstr", "expstr", "jsonnum",
+          \* typed Go slices of one element given to Slice(<numeric schema>): the element is coerced as the scalar is
+          "ints", "int32s", "int64s", "float64s",
+          \* an integral number written with a fraction of zeros ("10.0", "100.00")
+          "zfstr"}
+Base(rep) == CASE rep = "ints" -> "int" [] rep = "int32s" -> "int32" [] rep = "int64s" -> "int64" [] rep = "float64s" -> "float64" [] OTHER -> rep
 
 \* magnitude points: [name, int (integral?), fits: destinations that can hold it -- integers exactly, floats as the nearest
 \*                    representable value of the type (that IS the number in that type; overflow to Inf is not) --,
@@ -67,7 +72,9 @@ Finite(p) == p.name \notin {"NaN", "+Inf", "-Inf"}
 \* the points whose truncation toward zero fits every integer schema
 SmallFraction(p) == p.name \in {"half", "minusHalf", "big7.75", "nearInt"}
 
-Rows == {r \in [rep : Reps, dest : Dests, point : Points] : r.rep \in r.point.reps}
+Rows == {r \in [rep : Reps, dest : Dests, point : Points] :
+           \/ Base(r.rep) \in r.point.reps /\ r.rep # "zfstr"
+           \/ r.rep = "zfstr" /\ "decstr" \in r.point.reps /\ r.point.integral /\ Finite(r.point)}
 
 (***************************************************************************)
 (* C18: the outcomes that do NOT silently change the number.               *)
@@ -75,7 +82,7 @@ Rows == {r \in [rep : Reps, dest : Dests, point : Points] : r.rep \in r.point.re
 Allowed(r) ==
   {"issue"}
   \cup (IF r.dest \in r.point.fits THEN {"same"} ELSE {})
-  \cup (IF IntDest(r.dest) /\ SmallFraction(r.point) /\ r.rep \in {"float32", "float64", "jsonnum"} THEN {"trunc"} ELSE {})
+  \cup (IF IntDest(r.dest) /\ SmallFraction(r.point) /\ Base(r.rep) \in {"float32", "float64", "jsonnum"} THEN {"trunc"} ELSE {})
 
 (***************************************************************************)
 (* C03 (numeric leaves): the documented coercions must SUCCEED with the    *)
@@ -85,8 +92,8 @@ Allowed(r) ==
 (***************************************************************************)
 Documented(r) ==
   /\ r.dest \in r.point.fits /\ Finite(r.point)
-  /\ IF IntDest(r.dest) THEN r.rep \in {"int", "int32", "int64", "decstr", "float64", "jsonnum"} /\ r.point.integral
-     ELSE r.rep \in {"int", "float32", "float64", "decstr", "expstr", "jsonnum"}
+  /\ IF IntDest(r.dest) THEN Base(r.rep) \in {"int", "int32", "int64", "decstr", "float64", "jsonnum"} /\ r.point.integral
+     ELSE Base(r.rep) \in {"int", "float32", "float64", "decstr", "expstr", "jsonnum", "zfstr"}
 
 \* table-level sanity: "changed" is never allowed; every documented row allows "same"; a row that allows
 \* neither same nor trunc must be an issue
